@@ -8,6 +8,8 @@ TimeVecsQ == {<<0,0,1,2>>}
 FlagVecsQ == {<<1,1,0,0>>, <<0,1,1,0>>}
 TimeVecsT == {<<0,0,1,2>>, <<0,1,1,2>>, <<0,0,1,1>>}
 FlagVecsT == {<<1,1,0,0>>, <<1,1,1,0>>, <<0,1,0,1>>}
+TimeVecsS == {<<0,0,1,2>>, <<0,1,2,3>>}
+FlagVecsS == {<<1,1,0,0>>, <<1,1,1,0>>, <<1,1,1,1>>, <<1,0,1,1>>}
 TimeVecs5 == {<<0,0,0,1,2>>, <<0,0,1,1,2>>}
 FlagVecs5 == {<<1,1,1,0,0>>, <<1,1,0,1,0>>}
 Init == done = FALSE
